@@ -11,7 +11,9 @@ mod enc;
 mod pdbtext;
 mod rng;
 mod st;
+mod c01;
 mod c07;
+mod pdbio;
 mod c08;
 mod c09;
 mod c10;
@@ -113,6 +115,7 @@ pub fn guarded<T>(f: impl FnOnce() -> T) -> Result<T, String> {
 fn gen(prop: &str, tier: &str, seed: u64) -> Vec<String> {
     let mut r = rng::Rng::new(seed, prop);
     match prop {
+        "C01" => c01::gen(tier, &mut r),
         "C07" => c07::gen(tier, &mut r),
         "C08" => c08::gen(tier, &mut r),
         "C09" => c09::gen(tier, &mut r),
@@ -130,6 +133,7 @@ fn gen(prop: &str, tier: &str, seed: u64) -> Vec<String> {
 
 fn exec(prop: &str, case: &str) -> Exec {
     match prop {
+        "C01" => c01::exec(case),
         "C07" => c07::exec(case),
         "C08" => c08::exec(case),
         "C09" => c09::exec(case),
